@@ -19,8 +19,22 @@ inductive PendingRead where
   | get (k : Bytes) (rev hdr0 : Nat)
   deriving Repr
 
+/-- A compaction run as a stepped client (one compaction range, one partition): `setCompactRecord` (read
+the record: gate get; CAS / put-if-absent: gate commit, skipped when the stored record is larger), then
+`scanner.Compact`: timestamp, `checkCompactRace(compact)` (read: gate get; put: gate commit, skipped when the
+stored record is at least the revision), then the worker's iterator (gate iter) and its deletes. -/
+structure PendingCompact where
+  rev : Nat
+  stage : Nat                 -- 0 get, 1 commit, 2 get, 3 commit, 4 iter
+  v0 : Option Bytes := none   -- what setCompactRecord read
+  snap : Option Store := none -- tikv: the scan's snapshot is the one of the timestamp taken before stage 2
+  mask : List (String × String) := []
+  deriving Repr
+
 structure State where
   g : G := {}
+  compacts : List (Nat × PendingCompact) := []
+  marks : List (Nat × Nat) := []
   /-- (oldVal, modRev) a delete carried when it committed, for rendering its response -/
   delOld : List (Nat × Bytes × Nat) := []
   reads : List (Nat × PendingRead) := []
@@ -105,6 +119,13 @@ def step (st : State) (toks : List String) : State × String :=
       -- the limited path: timestamp, floor check (get), one worker (iter)
       ({ st with reads := (widOf cid, .list (unhx a) (unhx b) reqRev st.g.committed (atou lim) 0 (if st.g.cfg.q.snapshotAtTs then some st.g.store else none)) :: st.reads }, s!"at {cid} get")
     else ({ st with reads := (widOf cid, .list (unhx a) (unhx b) reqRev st.g.committed 0 0 (if st.g.cfg.q.snapshotAtTs then some st.g.store else none)) :: st.reads }, s!"at {cid} get")
+  | ["start", cid, "compact", r] =>
+    let cur := st.g.committed
+    let rev := if atou r == 0 || atou r > cur then cur else atou r
+    let rev := match st.g.retryQ.head? with
+      | some w => min (w.rev - 1) rev
+      | none => rev
+    ({ st with compacts := (widOf cid, { rev := rev, stage := 0, mask := opts }) :: st.compacts }, s!"at {cid} get")
   | ["start", cid, "get", k, r] =>
     ({ st with reads := (widOf cid, .get (unhx k) (relRev st.g.committed r) st.g.committed) :: st.reads }, s!"at {cid} iter")
   | "start" :: cid :: req =>
@@ -120,6 +141,54 @@ def step (st : State) (toks : List String) : State × String :=
       (st, report st id cid n)
   | ["step", cid] =>
     let id := widOf cid
+    match st.compacts.find? (·.1 == id) with
+    | some (_, pc) =>
+      let c := st.g.cfg
+      let ck := compactKeyOf c
+      let rest := st.compacts.filter (·.1 != id)
+      let toScan (g : G) (pc : PendingCompact) : PendingCompact :=
+        { pc with stage := 2, snap := if c.q.snapshotAtTs then some g.store else none }
+      match pc.stage with
+      | 0 =>
+        let v0 := st.g.store.get ck
+        match v0 with
+        | some v =>
+          if v.length > 0 && fromBE (v.take 8) > pc.rev then
+            ({ st with compacts := (id, toScan st.g { pc with v0 := v0 }) :: rest, marks := st.marks ++ [(pc.rev, 0)] }, s!"at {cid} get")
+          else ({ st with compacts := (id, { pc with stage := 1, v0 := v0 }) :: rest }, s!"at {cid} commit")
+        | none => ({ st with compacts := (id, { pc with stage := 1, v0 := none }) :: rest }, s!"at {cid} commit")
+      | 1 =>
+        let ok := match pc.v0 with
+          | some v => if v.length > 0 then st.g.store.get ck == some v else (st.g.store.get ck).isNone
+          | none => (st.g.store.get ck).isNone
+        if !ok then ({ st with compacts := rest }, s!"done {cid} compact err other")
+        else
+          let g := { st.g with store := st.g.store.put ck (be8 pc.rev) }
+          ({ st with g := g, compacts := (id, toScan g pc) :: rest, marks := st.marks ++ [(pc.rev, 0)] }, s!"at {cid} get")
+      | 2 =>
+        match st.g.store.get ck with
+        | some v =>
+          if v.length ≥ 8 && fromBE (v.take 8) ≥ pc.rev then
+            ({ st with compacts := (id, { pc with stage := 4 }) :: rest }, s!"at {cid} iter")
+          else ({ st with compacts := (id, { pc with stage := 3 }) :: rest }, s!"at {cid} commit")
+        | none => ({ st with compacts := (id, { pc with stage := 3 }) :: rest }, s!"at {cid} commit")
+      | 3 =>
+        let g := { st.g with store := st.g.store.put ck (be8 pc.rev) }
+        ({ st with g := g, compacts := (id, { pc with stage := 4 }) :: rest }, s!"at {cid} iter")
+      | _ =>
+        -- the worker: iterate the scan's snapshot, then run its deletes against the live store
+        let view := pc.snap.getD st.g.store
+        match pairs (compactBorders c) with
+        | (a, b) :: _ =>
+          match decodeRecs (iterate c.q view a b 0) with
+          | none => ({ st with compacts := rest }, s!"done {cid} compact PANIC")
+          | some recs =>
+            let acts := workerActs { R := pc.rev, compact := true, timeout := 0, supportTTL := c.q.supportTTL,
+                                     eventsPfx := eventsPrefixOf c } recs
+            let cs := runDeletes (parseMask pc.mask) { store := st.g.store } acts
+            ({ st with g := { st.g with store := cs.store }, compacts := rest }, s!"done {cid} compact {pc.rev}")
+        | [] => ({ st with compacts := rest }, s!"done {cid} compact {pc.rev}")
+    | none =>
     match st.reads.find? (·.1 == id) with
     | some (_, .list a b reqRev hdr0 lim 0 snap) =>
       -- the floor check ran: refused below the floor, else on to the scan
@@ -156,6 +225,10 @@ def step (st : State) (toks : List String) : State × String :=
       let g := seqAll g (g.dealt - g.committed + 1)
       let st := { st with g := g, delOld := delOld }
       (st, report st id cid n)
+  | ["floor"] =>
+    match st.g.store.get (compactKeyOf st.g.cfg) with
+    | some v => (st, s!"floor {hx v}")
+    | none => (st, "floor -")
   | ["rev"] => (st, s!"rev {st.g.committed}")
   | ["dump"] => (st, s!"dump {dumpStr st.g.store}")
   | ["get", k, r] =>
